@@ -360,6 +360,9 @@ type Step struct {
 	Other    vh.B   `json:"other_seed,omitempty"`
 	Flip     int    `json:"flip_bit,omitempty"`
 	Extra    []Attr `json:"extra,omitempty"`
+	// Reuse: an "honest" step uses the strategy OBJECT that an earlier honest step with the same
+	// key created (one signer object adding several signatures), instead of a fresh one.
+	Reuse bool `json:"reuse,omitempty"`
 }
 
 type LibCase struct {
@@ -484,13 +487,20 @@ var libProp = vh.Define("C07", "lib", func(c LibCase, r *vh.R) {
 
 	signer := &integrityblock.IntegrityBlockSigner{WebBundleHash: hash, IntegrityBlock: ib}
 	var model []sigEntry // expected stack, newest first
+	strategyObjects := map[string]integrityblock.ISigningStrategy{}
 	for i, st := range c.Steps {
 		pubA, privA := gen.Ed25519FromSeed(st.Key)
 		var strategy integrityblock.ISigningStrategy
 		var own *strat
 		switch st.Strategy {
 		case "honest":
-			strategy = integrityblock.NewParsedEd25519KeySigningStrategy(privA)
+			if old, ok := strategyObjects[string(st.Key)]; ok && st.Reuse {
+				strategy = old
+				r.Class("strategy-object-reused")
+			} else {
+				strategy = integrityblock.NewParsedEd25519KeySigningStrategy(privA)
+				strategyObjects[string(st.Key)] = strategy
+			}
 		case "honest-own":
 			own = &strat{priv: privA, pub: pubA, flip: -1}
 		case "wrong-key":
@@ -748,6 +758,10 @@ func TestPropLib(t *testing.T) {
 		n := rapid.IntRange(1, 4).Draw(t, "steps")
 		for i := 0; i < n; i++ {
 			st := Step{Key: genSeed(t, "key")}
+			if i > 0 && rapid.IntRange(0, 2).Draw(t, "samekey") == 0 {
+				st.Key = append(vh.B{}, c.Steps[rapid.IntRange(0, i-1).Draw(t, "whichkey")].Key...)
+				st.Reuse = rapid.IntRange(0, 3).Draw(t, "reuse") > 0
+			}
 			switch k := rapid.IntRange(0, 19).Draw(t, "strategy"); {
 			case k < 9:
 				st.Strategy = "honest"
